@@ -77,7 +77,19 @@ FOCUS7 = {
     "C18": "'nng_id_map set/get/remove/visit behave as a finite map' (growth, shrink, collisions, wrap of dynamic ids, NNG_MAP_RANDOM), 'not reissued before the range wraps', and the message queues of raw sockets (SENDBUF / RECVBUF of REQ, REP, SURVEYOR, RESPONDENT raw sockets and contexts)",
     "C20": "'during any public API call': nng_msg operations, URL parsing and cloning, option setters with strings, nng_stream dial / listen / accept, HTTP client and server objects, statistics snapshots, 'does not leave the object in a state where later calls misbehave'",
 }
+FOCUS8 = {
+    "C04": "raw-mode REQ/REP sockets and requests relayed through devices (request id and multi-hop backtrace pass through unchanged), a request whose connection closes before the reply is sent ('sends its reply only to the connection ... of the request it most recently received': the reply is discarded, not sent to anybody else), and more than two contexts on one socket",
+    "C05": "the PUB side: 'a PUB send never blocks' with slow or stalled subscribers and NNG_OPT_SENDBUF changes, subscribers that connect and disconnect while messages are published, 'messages from one publisher are never duplicated, altered or reordered' for each subscriber independently, NNG_OPT_RECVBUF of SUB contexts",
+    "C06": "pullers that connect, disconnect and reconnect while messages wait in the PUSH send buffer or in blocked senders, NNG_OPT_SENDBUF / NNG_OPT_RECVBUF changes at that time, several pushers feeding one puller, and sends with timeouts ('fails with NNG_EAGAIN or NNG_ETIMEDOUT leaving the message with the caller')",
+    "C09": "raw-mode BUS: header handling on send and receive ('a message whose header names the pipe it arrived on is forwarded to every connected peer except that pipe', headers of the wrong size), the per-peer send queues and the receive queue resized while they hold messages, 'dropped whole rather than duplicated, reordered or corrupted'",
+    "C10": "nng_pipe_close and nng_ctx_close, handles derived from a closed object (the socket / dialer / listener of a pipe, ids, option calls on dead handles: 'fail with NNG_ECLOSED or NNG_ENOENT instead of acting on released state'), and nng_socket_close called twice or from several threads at once",
+    "C12": "NNG_OPT_REQ_RESENDTIME and NNG_OPT_REQ_RESENDTICK values (very small, changed while a request is outstanding, different per context), 'the request is cancelled or replaced' (a new send on the same context replaces the old request: only the new one is retransmitted and answered), 'or the receive times out'",
+    "C13": "devices with traffic in both directions at the same time and large messages, nng_device with a single socket (reflector), stopping a device with nng_aio_cancel and starting another on the same sockets, and 'backtraces that are malformed or longer than the header capacity' arriving at raw sockets (replies at XREQ, responses at XSURVEYOR as well as requests at XREP / XRESPONDENT)",
+    "C14": "'dials again after a randomised delay no longer than the larger configured reconnect time': NNG_OPT_RECONNMINT / NNG_OPT_RECONNMAXT on the socket versus on the dialer, growth of the back-off and its reset after a successful connection, NNG_FLAG_NONBLOCK dials of an unreachable address, 'a dialer owns at most one pipe at a time' when the peer accepts and closes at once",
+}
 prop, tag = sys.argv[1], sys.argv[2]
+if len(sys.argv) > 3 and sys.argv[3] == "8":
+    FOCUS = FOCUS8
 if len(sys.argv) > 3 and sys.argv[3] == "7":
     FOCUS = FOCUS7
 if len(sys.argv) > 3 and sys.argv[3] == "6":
